@@ -9,7 +9,7 @@ claim('C14',
       'real and int64, all index permutations n<=3 (4); rebin 1-D n<=4 all integer factors<=3, 2-D and 3-D factor combinations, float and int. '
       'Floats are exact reals (no rounding/NaN/inf); scipy medfilt/medfilt2d and numpy.median are contract stubs (order-statistic relation); '
       'non-dyadic interpolation weights get a 1e-12 relative tolerance; integer expansion between sample points only bracketed; '
-      'output dtype identity not covered.', 'DESIGN.md 4/C14')
+      'output dtype identity not covered. Fourth round: the median without a width on 2-D and 3-D shapes.', 'DESIGN.md 4/C14')
 na('C18', 'every clause is about values of sin/cos/arcsin/arctan2 or their IEEE rounding: no SMT theory decides them and astropy frame machinery cannot carry symbolic values (DESIGN.md section 5)')
 claim('C06',
       'sdss_objid / sdss_specobjid / unwrap_objid / unwrap_specobjid are executed symbolically with every numeric field a 64-bit '
@@ -20,7 +20,7 @@ claim('C06',
       'given as decimal strings (19-20 symbolic digits) go through the same obligations via the symbolic string layer. Per-field sweeps '
       'cannot cover 2^64 tuples; bit-vector reasoning does.',
       'numpy int64/uint64 = two\'s-complement bit-vectors with numpy.result_type promotion; numpy.recarray replaced by a record stand-in '
-      'with numpy\'s casting-on-assignment rule; arrays longer than 3 and Python ints beyond 64 bits are outside the claim.',
+      'with numpy\'s casting-on-assignment rule; arrays longer than 3 and Python ints beyond 64 bits are outside the claim. Fourth round: float() of an all-digit symbolic string is the correctly rounded binary64 of the integer it spells, so conversions of decimal-string IDs through float64 are decided.',
       'DESIGN.md 4/C06')
 claim('C20',
       'window_score and template_input (with template_metadata inside it) run on stubbed collaborators that share one call counter; the '
@@ -32,7 +32,7 @@ claim('C20',
       'The solver decides path feasibility (fault index, presence bits, content selectors are solver variables); collaborators are '
       'stubs returning a benign absorbing value or raising one of 2 (quick) / 4 (thorough) exception kinds; os.environ is a mapping stub '
       '(counterexamples are replayed against the real os.environ of a fresh process); collaborators are assumed not to modify the '
-      'environment themselves.', 'DESIGN.md 4/C20')
+      'environment themselves. Fourth round: the parameter-file stub is a mapping with pairs() and tables() and may carry an unknown extra keyword (none / rundate / home, chosen by the solver).', 'DESIGN.md 4/C20')
 claim('C04',
       'PARTIAL. spherematch is executed symbolically from the candidate loop onwards with the separation of every pair a solver '
       'variable (arbitrary non-negative real matrix D, arbitrary match length L > 0): for every D and L within the size bound the '
@@ -44,7 +44,7 @@ claim('C04',
       'Match loop: class chunks is replaced by a trivially complete hash and gcirc by 3600*D[i][k]; 2x1, 2x2, 3x1, 2x3 (+3x2 for maxmatch=1) '
       'quick; up to 3x2 and 2x3 thorough; maxmatch 0..2; ties in argsort in stable order. Hash: first-list declinations concrete (quick: 2 '
       'points on the equator within 10 deg of the seam, chunk size 120; thorough: 5 configurations incl. a polar one, chunk sizes 30-120), '
-      'one second-list point anywhere, cos of the concrete declination bounds evaluated in IEEE double.', 'DESIGN.md 4/C04 and 9.4')
+      'one second-list point anywhere, cos of the concrete declination bounds evaluated in IEEE double. Fourth round: a polar hash configuration whose declination slices are narrower than the match length (RA windows 99-101 / 98-102 deg).', 'DESIGN.md 4/C04 and 9.4')
 claim('C05',
       'PARTIAL. (1) The per-chunk friends-of-friends class `groups` is executed on a symbolic symmetric distance matrix (n <= 5 quick, '
       '6 thorough): for every matrix and linking length the resulting partition equals the connected components of the link graph, '
@@ -78,7 +78,7 @@ claim('C09',
       'Ill-posed problems (gap, zero-weight block, all-zero weights, too few breakpoints, negative weights) must return a documented status.',
       'scipy cholesky_banded / cho_solve_banded are contract stubs (LinAlgError iff a leading minor <= 0; exact solution of A x = b): the '
       'numerical factorisation L L^T = A is LAPACK behind FFI and is assumed, not checked. Floats are exact reals; non-finite input is '
-      'outside the claim (isfinite is constantly true). Order 1 only where no datum sits on an interior breakpoint.', 'DESIGN.md 4/C09')
+      'outside the claim (isfinite is constantly true). Order 1 only where no datum sits on an interior breakpoint. Fourth round: ill-posed cases with the unsupported stretch at either end of the knot vector (orders 3, 4) and breakpoints beyond the data.', 'DESIGN.md 4/C09')
 claim('C10',
       'iterfit (with the real bspline class and djs_reject underneath) is executed with the data vector y symbolic (n <= 5 quick, 6 thorough) '
       'on exact-rational abscissae and inverse-variance patterns (ones, mixed squares, zeros, negatives), orders 1-4, limits from {1,2,5}, '
@@ -124,7 +124,7 @@ claim('C19',
       'Wavelengths are exact reals and non-binary float literals denote their decimal value (1e-6 A leaves five orders of magnitude for '
       'rounding - an argument, not a solver result); array elements restricted to >= 1400 A (below that numpy evaluates and discards an '
       'inf at the poles of the Ciddor factor); filter_thru/sdssflux2ab run in mixed mode (concrete sub-computations in IEEE double, 1e-9 / '
-      '1e-12 tolerances). astropy Quantity input is NOT covered (units machinery cannot carry symbolic values).', 'DESIGN.md 4/C19')
+      '1e-12 tolerances). astropy Quantity input is NOT covered (units machinery cannot carry symbolic values). Fourth round: a wavelength image decreasing with pixel index in filter_thru; wavelengths held in 0-d arrays / NumPy scalars for airtovac and vactoair. Integer-typed flux images in filter_thru are NOT covered (inconclusive in the engine).', 'DESIGN.md 4/C19')
 claim('C12',
       'PARTIAL. cap_distance / is_in_cap / is_cap_used / is_in_polygon / is_in_window / set_use_caps and the keyword and copy constructors of '
       'ManglePolygon are executed with cap centres, cap sizes cm in (-2,2), points (Cartesian unit vectors, or RA/Dec through angles_to_x) '
@@ -137,7 +137,7 @@ claim('C12',
       'three storage formats (Mangle text / FITS table / window_read assembly: astropy I/O). IEEE rounding of the dot product fed to arccos '
       '(a cap\'s own centre; NaN) is covered by two binary64 (QF_FP) obligations in which numpy.dot returns an arbitrary double within 2^-50 '
       'of [-1, 1] and arccos is a function symbol with stated libm facts (validated against this machine\'s numpy on every run). Bounds: <= 2 caps x 1-2 points, <= 3 polygons, index lists over 3 caps up to '
-      'length 2 (3 thorough).', 'DESIGN.md 4/C12')
+      'length 2 (3 thorough). Fourth round: caps with cm = 0 belong to the domain (assumption cm != 0 removed).', 'DESIGN.md 4/C12')
 claim('C16',
       'readspec (with spec_append, latest_mjd, number_of_fibers, spec_path) runs against a synthetic survey in which every pixel of every HDU '
       'of every plate-MJD file is a distinct symbol D(plate, mjd, hdu, row, pixel); the request vector (plate, MJD, fibre per entry, 1-2 '
@@ -158,7 +158,7 @@ claim('C15',
       'NOT claimed (deciding computation is LAPACK/C behind FFI, no encoding within reach; with concrete matrices the claim would degenerate '
       'to a unit test): computechi2 beyond 2 parameters or rank-deficient, pcomp and HMF.reorder (eigh), pca_solve, k-means seeding / seed determinism, '
       '"caller\'s arrays not modified". numpy.linalg.solve is an exact-rational contract stub; numpy.linalg.svd is a contract stub that '
-      'hands out the decomposition named by the harness only after verifying U diag(w) Vh = input, orthonormality, sign and order.', 'DESIGN.md 4/C15 and 9.2')
+      'hands out the decomposition named by the harness only after verifying U diag(w) Vh = input, orthonormality, sign and order. Fourth round: the order in which the lazy results of computechi2 are read is a solver choice among four orders containing every ordered pair of attributes; each result is read twice.', 'DESIGN.md 4/C15 and 9.2')
 claim('C11',
       'PARTIAL. combine1fiber (1-D, and stacks of two exposures with different coverage: zero pattern of the inverse variance), aesthetics, djs_maskinterp, smooth and the shift arithmetic of preprocess_spectra are executed with the '
       'spline fit replaced by an ARBITRARY fit outcome (fresh symbolic flux per evaluated pixel, symbolic evaluation mask, symbolic '
@@ -171,7 +171,7 @@ claim('C11',
       'The spline fit itself is not part of this check (covered by C08-C10); "finite" cannot be expressed in exact reals; identity/constant-'
       'spectrum accuracy is a statement about the fit; for stacks the variance smoothing (running median over 101 pixels) is an arbitrary '
       'positive value per pixel and the fit accepts everything. An output pixel that coincides with a good input pixel counts as lying between (same-grid resampling is the identity). The '
-      'scaling law is shown for weights >= 1 and factors >= 1e-3 (the code treats |ivar| < float32 eps as no weight).', 'DESIGN.md 4/C11')
+      'scaling law is shown for weights >= 1 and factors >= 1e-3 (the code treats |ivar| < float32 eps as no weight). Fourth round: the scaling law with flux scaled by c and inverse variance by 1/c^2 together (c a solver choice from 1/1000, 30) under a fit stub whose curve and coefficients scale with the data; stub coefficients symbolic and non-zero; scaled inverse variances stay >= 1e-3 (the code\'s absolute float32-eps threshold for \'no weight\' is outside the claim).', 'DESIGN.md 4/C11')
 claim('C02',
       'The real yanny parser (__init__, _parse, get_token, trailing_comment, type/isarray/isenum/array_length/char_length/dtype/convert) is '
       'executed on a rendered logical document (2 pairs, 1 enum, 2 structs with int / char[n] / char[] / enum / string-array / float-array '
@@ -185,7 +185,7 @@ claim('C02',
       'cases per run); numpy structured arrays by a record stand-in with numpy\'s S<n> truncation rule. Admissible contents per rendering '
       'are stated in the evidence (e.g. bare strings contain no blank, #, quote or brace; trailing comments no quote, second # or '
       'backslash - documented limits of trailing_comment). Float tokens are concrete. Longer contents and products of several non-default '
-      'layout choices are outside the bound.', 'DESIGN.md 4/C02')
+      'layout choices are outside the bound. Fourth round: padding inside the braces of array cells and a declared table without rows are layouts too.', 'DESIGN.md 4/C02')
 claim('C01',
       'PARTIAL. write_ndarray_to_yanny / write_table_yanny -> file -> yanny() / read_table_yanny are executed end to end over an in-memory '
       'file system with the CONTENTS of string cells, string-array elements and header values symbolic characters (up to 2-3 per document '
@@ -196,7 +196,7 @@ claim('C01',
       'an existing file and of the unsupported scalar dtypes (u1,u2,u4,u8,i1,b1,f2,c8,c16 - a finite enumeration) are covered.',
       'NOT claimed: float cells (bit-identical text round trip incl. NaN / inf / denormals: numpy repr and CPython float() are C code - floats '
       'appear only as concrete values). re -> pathsym.symre; record arrays / Table -> record stand-in with a real numpy dtype; the decimal '
-      'rendering and parsing of integers is the engine\'s (digits symbolic), the tokeniser in between is pydl\'s; in-memory file system.',
+      'rendering and parsing of integers is the engine\'s (digits symbolic), the tokeniser in between is pydl\'s; in-memory file system. Fourth round: the header keyword is a name chosen by the solver (among them struct, enum, typedef, symbols - the parser\'s own bookkeeping words) through the record-array and the Table entry points; zero-row tables with array columns.',
       'DESIGN.md 4/C01')
 claim('C03',
       'The yanny object methods (__init__, write, append, _parse, protect and the accessors) are executed over an in-memory file system for '
@@ -208,7 +208,7 @@ claim('C03',
       'documented exception and leave files and object unchanged, and an empty append only warns.',
       'The file system is a stub with create / append / exists semantics (real OS permissions and concurrent writers are outside); re -> '
       'pathsym.symre; record arrays -> stand-in; the solver enumerates operation selectors (path feasibility) and decides the cell '
-      'equalities over the symbolic characters. Histories longer than 3 steps are outside the bound.', 'DESIGN.md 4/C03')
+      'equalities over the symbolic characters. Histories longer than 3 steps are outside the bound. Fourth round: \'appending nothing\' is tried in five spellings chosen by the solver (no key, empty lists, zero-length record arrays, either letter case).', 'DESIGN.md 4/C03')
 claim('C07',
       'set_maskbits (raw yanny read of a definition file from the in-memory file system), sdss_flagval, sdss_flagname and sdss_flagexist are '
       'executed with the bit numbers in the file symbolic decimal digits (one or two digits, distinct, 0..63, one label pinned to bit 63), '
